@@ -82,16 +82,18 @@ let show_out = function
   | ONone -> "-"
   | OList l -> "l" ^ String.concat "," (List.map (fun z -> string_of_int (int_of_z z)) l)
 
-let jk = z_of_int (-777)
+(* what fresh memory holds in the harness: ASan fills new allocations with 0xbe bytes and the harness constructs its
+   Queues inside buffers filled the same way, so the raw slots of trivial items can be compared exactly as well *)
+let jk = z_of_int (-1094795586)
 
 let zl l = String.concat "," (List.map (fun z -> string_of_int (int_of_z z)) l)
 
-(* kind/count/head/tail/slots/[items]/{raw slots}<inactive in-object array>; the raw parts for owning items only *)
+(* kind/count/head/tail/slots/[items]/{raw slots}<inactive in-object array> *)
 let show_state owning (q : q1) =
   let c = int_of_nat q.cnt in
   let stv = match q.st with SNull -> "N" | SSmall -> "S" | SHeap -> "H" in
-  let raw = if owning then zl q.arr else "" in
-  let inl = if owning && q.st <> SSmall then zl q.inl else "" in
+  let raw = zl q.arr in
+  let inl = if q.st <> SSmall then zl q.inl else "" in
   Printf.sprintf "%s/%d/%s/%s/%d/[%s]/{%s}<%s>" stv c
     (if c = 0 then "_" else string_of_int (int_of_nat q.head))
     (if c = 0 then "_" else string_of_int (int_of_nat q.tail))
